@@ -31,3 +31,13 @@ def c07_iterative_inverse_cancellation(w):
     precision because expanded degree-2^((d+1)//2) polynomials with float constants cancel catastrophically."""
     return (w.get('kind') == 'inverse inaccurate in double precision (cancellation), exact in high precision'
             and w.get('op') == 'inv' and int(w.get('d') or 0) >= 6 and w.get('high_precision_recheck') == 'exact-in-high-precision')
+
+
+def c16_constant_coefficient_not_indexable(w):
+    """An operator on array-valued multivectors returns a result in which an input-independent coefficient (the scalar 1 of
+    outerexp / outercos, ...) is a plain Python number next to array-valued ones; indexing that result then raises TypeError
+    ('int' object is not subscriptable) although op(X[idx]) works."""
+    return (w.get('kind') == 'op(X, Y)[idx] raises although op(X, Y) and op(X[idx], Y[idx]) succeed'
+            and w.get('exc_type') == 'TypeError' and 'not subscriptable' in str(w.get('error'))
+            and bool(w.get('result_blades_with_a_plain_number_coefficient'))
+            and len(w.get('result_blades_with_a_plain_number_coefficient')) < len(w.get('result_blades') or []))
